@@ -132,19 +132,35 @@ func (g *pgen) expr(depth int) string {
 		}
 		return g.pickVal().name
 	case k < 72:
-		return g.expr(depth-1) + " + " + g.expr(depth-1)
+		a, b := g.expr(depth-1), g.expr(depth-1)
+		if isLit(a) && isLit(b) && len(g.vals) > 0 {
+			a = g.pickVal().name // a constant expression must not overflow the type in Go
+		}
+		return a + " + " + b
 	case k < 84:
 		a, b := g.expr(depth-1), g.expr(depth-1)
-		if strings.ContainsAny(a, "+-&|^") {
-			a = "(" + a + ")"
+		if isLit(a) && isLit(b) && len(g.vals) > 0 {
+			a = g.pickVal().name
 		}
-		if strings.ContainsAny(b, "+-&|^") {
-			b = "(" + b + ")"
+		// parentheses are not in the compiler's grammar (clean "Wrong expression"): a small share only
+		if strings.ContainsAny(a, "+") {
+			if g.pct(10, "paren") {
+				a = "(" + a + ")"
+			} else {
+				a = g.pickVal().name
+			}
+		}
+		if strings.ContainsAny(b, "+") {
+			if g.pct(10, "paren") {
+				b = "(" + b + ")"
+			} else {
+				b = g.lit()
+			}
 		}
 		return a + " * " + b
 	case k < 92:
 		if len(g.funcs) == 0 {
-			return g.expr(depth-1) + " + " + g.lit()
+			return g.nonLit(depth-1) + " + " + g.lit()
 		}
 		f := g.funcs[rapid.IntRange(0, len(g.funcs)-1).Draw(g.t, "fn")]
 		var args []string
@@ -158,8 +174,25 @@ func (g *pgen) expr(depth int) string {
 		}
 		return "bondgo.IORead(" + g.ins[rapid.IntRange(0, len(g.ins)-1).Draw(g.t, "in")] + ")"
 	default:
-		return g.expr(depth-1) + " + " + g.lit()
+		return g.nonLit(depth-1) + " + " + g.lit()
 	}
+}
+
+func isLit(s string) bool {
+	for _, r := range s {
+		if r < '0' || r > '9' {
+			return false
+		}
+	}
+	return s != ""
+}
+
+func (g *pgen) nonLit(depth int) string {
+	e := g.expr(depth)
+	if isLit(e) && len(g.vals) > 0 {
+		return g.pickVal().name
+	}
+	return e
 }
 
 func (g *pgen) cond() string {
@@ -326,7 +359,14 @@ func (g *pgen) stmt(c stmtCtx) {
 			return
 		}
 		op := rapid.SampledFrom(unsupportedOps).Draw(g.t, "uop")
-		g.emit("%s = %s %s %s", g.pickVal().name, g.expr(0), op, g.lit())
+		rhs := g.lit()
+		if (op == "/" || op == "%") && rhs == "0" {
+			rhs = "3"
+		}
+		if op == "<<" {
+			rhs = "1"
+		}
+		g.emit("%s = %s %s %s", g.pickVal().name, g.pickVal().name, op, rhs)
 	default:
 		if c.inFunc && g.pct(30, "earlyReturn") {
 			g.emit("if %s {", g.cond())
@@ -449,6 +489,19 @@ func (g *pgen) routine(gidOut []int, gidIn []int, extra func()) {
 	rc := g.pushCtx()
 	g.inLoop++
 	g.block(rapid.IntRange(0, 3).Draw(g.t, "nloop"), stmtCtx{depth: 1}, func() {
+		// every declared variable and input is read (Go rejects unused locals) and so observed
+		var all []string
+		for _, x := range g.vals[:nTop] {
+			all = append(all, x.name)
+		}
+		for _, in := range g.ins {
+			all = append(all, "bondgo.IORead("+in+")")
+		}
+		sum := func() { g.emit("bondgo.IOWrite(%s, %s)", g.outs[len(g.outs)-1], strings.Join(all, " + ")) }
+		sumLast := g.pct(30, "sumlast")
+		if !sumLast {
+			sum()
+		}
 		v := g.vals[rapid.IntRange(0, nreg-1).Draw(g.t, "ctr")]
 		switch rapid.IntRange(0, 2).Draw(g.t, "advance") {
 		case 0:
@@ -458,19 +511,13 @@ func (g *pgen) routine(gidOut []int, gidIn []int, extra func()) {
 		default:
 			g.emit("%s = %s * 3 + 1", v.name, v.name)
 		}
-		g.emit("bondgo.IOWrite(%s, %s)", g.outs[rapid.IntRange(0, len(g.outs)-1).Draw(g.t, "out")], v.name)
 		if g.pct(35, "secondwrite") {
 			g.emit("bondgo.IOWrite(%s, %s)", g.outs[rapid.IntRange(0, len(g.outs)-1).Draw(g.t, "out")], g.expr(2))
 		}
-		// every declared variable and input is read (Go rejects unused locals) and so observed
-		var all []string
-		for _, x := range g.vals[:nTop] {
-			all = append(all, x.name)
+		g.emit("bondgo.IOWrite(%s, %s)", g.outs[rapid.IntRange(0, len(g.outs)-1).Draw(g.t, "out")], v.name)
+		if sumLast {
+			sum()
 		}
-		for _, in := range g.ins {
-			all = append(all, "bondgo.IORead("+in+")")
-		}
-		g.emit("bondgo.IOWrite(%s, %s)", g.outs[len(g.outs)-1], strings.Join(all, " + "))
 	})
 	g.inLoop--
 	rc()
